@@ -195,14 +195,14 @@ inline Number parseNumber(const char* s) {
       s++;
     }
 
+    // beyond this limit, the result is out of range whatever comes next
+    const int exponent_limit =
+        traits::exponent_max + 20 +
+        (negative_exponent ? exponent_offset : -exponent_offset);
+
     while (isdigit(*s)) {
-      exponent = exponent * 10 + (*s - '0');
-      if (exponent + exponent_offset > traits::exponent_max) {
-        if (negative_exponent)
-          return Number(is_negative ? -0.0f : 0.0f);
-        else
-          return Number(is_negative ? -traits::inf() : traits::inf());
-      }
+      if (exponent <= exponent_limit)
+        exponent = exponent * 10 + (*s - '0');
       s++;
     }
     if (negative_exponent)
@@ -213,6 +213,14 @@ inline Number parseNumber(const char* s) {
   // we should be at the end of the string, otherwise it's an error
   if (*s != '\0')
     return Number();
+
+  // the mantissa has at most 20 digits, so the value is zero or below
+  // 10^(exponent+20)
+  if (mantissa == 0 || exponent < -traits::exponent_max - 20)
+    return Number(is_negative ? -0.0f : 0.0f);
+
+  if (exponent > traits::exponent_max)
+    return Number(is_negative ? -traits::inf() : traits::inf());
 
 #if ARDUINOJSON_USE_DOUBLE
   bool isDouble = exponent < -FloatTraits<float>::exponent_max ||
